@@ -19,6 +19,11 @@ def m_d9(d):
                    stdout=subprocess.DEVNULL)
 
 
+def m_d19(d):
+    subprocess.run(['patch', '-d', d, '-p1', '-i', os.path.join(ROOT, 'seeded/revert-fix-D19-premature-downstream-ack/patch.diff')],
+                   check=True, stdout=subprocess.DEVNULL)
+
+
 def m_nomin(d):
     sub(d + '/src/iodined.c', 'datalen = MIN(users[userid].fragsize, users[userid].outpacket.len - users[userid].outpacket.offset);',
         'datalen = users[userid].outpacket.len - users[userid].outpacket.offset;')
@@ -84,7 +89,7 @@ def m_ack_first(d):
     open(d + '/src/iodined.c', 'w').write(s)
 
 
-MUTANTS = dict(ackfirst=m_ack_first, d9=m_d9, nomin=m_nomin, lt0=m_lt0, last=m_last, qmemdata2=m_qmemdata2, nolower=m_nolower,
+MUTANTS = dict(ackfirst=m_ack_first, d9=m_d9, d19=m_d19, nomin=m_nomin, lt0=m_lt0, last=m_last, qmemdata2=m_qmemdata2, nolower=m_nolower,
                cacheafterack=m_cache_after_ack)
 
 
